@@ -270,6 +270,20 @@ func (w *world) serve(ps []*rpeer, disc bool) {
 		live := func(p int) bool { return !(disc && w.v.IsBanned(addr(p))) }
 		switch q := req.(type) {
 		case *wire.MsgGetCFHeaders:
+			if m := w.mid; m != nil && !m.done {
+				// the block handler reorganises the chain while our query is out
+				m.done = true
+				if err := w.v.RollBackToHeight(uint32(m.h)); err != nil {
+					m.ret = "err"
+				} else {
+					m.ret = "ok"
+				}
+				if _, bt, err := w.v.Block.ChainTip(); err == nil && int(bt)+1 <= len(w.chain) {
+					w.chain = w.chain[:bt+1]
+					w.retruth()
+				}
+				m.ids = w.extend(m.n)
+			}
 			type ev struct {
 				p int
 				m *wire.MsgCFHeaders
@@ -336,12 +350,41 @@ func (w *world) tipRoundAt(np int, disc bool, forced []string, forcedD []int) (r
 		stop = start + wire.MaxCFHeadersPerMsg - 1
 	}
 	w.gbFail = map[int]bool{}
+	w.mid = nil
+	if forced == nil && bt > ft && ft >= 0 && w.r.Intn(6) == 0 {
+		// a reorganisation lands between the query and the write; everybody
+		// answers honestly for the chain the query was made for
+		h := ft + w.r.Intn(bt-ft)
+		if ft >= 1 && w.r.Intn(5) == 0 {
+			h = w.r.Intn(ft)
+		}
+		n := bt - h + w.r.Intn(2)
+		if w.r.Intn(5) == 0 && n > 1 {
+			n--
+		}
+		w.mid = &midReorg{h: h, n: n}
+		forced = make([]string, np)
+		for i := range forced {
+			forced[i] = "honest"
+			if w.r.Intn(5) == 0 {
+				forced[i] = "silent"
+			}
+		}
+		forcedD = []int{}
+		w.t.Hit("tipround.mid-reorg")
+	}
 	ps := w.planRound(np, start, stop, tip, forced, forcedD)
 	w.serve(ps, disc)
 	ret = guard(func() string { return errKind(w.v.GetUncheckpointedCFHeaders()) })
 	w.onQuery = nil
 	w.t.Hit("tipround." + strings.ReplaceAll(ret, " ", "-"))
-	w.t.Op("tipround", ret+" | "+w.dump())
+	op := "tipround"
+	if m := w.mid; m != nil && m.done {
+		op = fmt.Sprintf("tipround mid %d %s", m.h, ints(m.ids))
+		w.t.Hit("tipround.mid-reorg." + strings.ReplaceAll(ret, " ", "-"))
+	}
+	w.mid = nil
+	w.t.Op(op, ret+" | "+w.dump())
 	return ret
 }
 
@@ -371,6 +414,15 @@ func (w *world) directWrite() {
 	}
 	w.chainOf(prev, fids)
 	m := w.mkmsg(w.chain[ft+n].hash, true, prev, fids)
+	stopID := w.chain[ft+n].id
+	if w.r.Intn(4) == 0 {
+		// the batch was built for blocks that are reorganised away before it is written
+		hh := ft + w.r.Intn(n)
+		removed := bt - hh
+		w.rollback(hh)
+		w.ext(removed + w.r.Intn(2))
+		w.t.Hit("wr.stale-batch")
+	}
 	ret := guard(func() string {
 		h, ht, err := w.v.WriteCFHeadersMsg(m.w)
 		if err != nil {
@@ -383,7 +435,7 @@ func (w *world) directWrite() {
 	} else {
 		w.t.Hit("wr." + strings.ReplaceAll(ret, " ", "-"))
 	}
-	w.t.Op(fmt.Sprintf("wr %d %d %s", prev, w.chain[ft+n].id, ints(fids)), ret+" | "+w.dump())
+	w.t.Op(fmt.Sprintf("wr %d %d %s", prev, stopID, ints(fids)), ret+" | "+w.dump())
 }
 
 func mini(a, b int) int {
@@ -519,10 +571,10 @@ func run(t *tr.W, thorough bool) {
 		tipCase(w, 3+r.Intn(6))
 	}
 	w.close()
-	for _, sc := range []string{"false-partial", "store-disagrees", "hard"} {
+	for _, sc := range []string{"false-partial", "store-disagrees", "hard", "liars-apart", "liars-apart"} {
 		cpCase(t, r, sc)
 	}
-	for i := 0; i < 5*budget; i++ {
+	for i := 0; i < 4*budget; i++ {
 		cpCase(t, r, "random")
 	}
 	w = newWorld(t, r, nil)
